@@ -182,7 +182,8 @@ func newExec(ld *Loaded) *Exec {
 	return &Exec{prog: ld.prog, fset: ld.fset, contracts: ld.cs, warnings: map[string]int{}, globals: map[*ssa.Global]*Obj{},
 		inlineMax: 14, maxStates: 60000, loopInfo: map[*ssa.Function]*LoopInfo{}, pureCache: map[*ssa.Function]*effectSummary{},
 		useContracts: true, noContractFor: map[string]bool{}, assumed: map[string]int{},
-		initDone: map[*ssa.Package]bool{}, inInit: map[*ssa.Package]bool{}, globalVals: map[*ssa.Global]*Term{}, initStates: map[*ssa.Package]*State{}}
+		initDone: map[*ssa.Package]bool{}, inInit: map[*ssa.Package]bool{}, globalVals: map[*ssa.Global]*Term{}, initStates: map[*ssa.Package]*State{},
+		iterPrefix: map[string]*Term{}, arrayFam: map[string]int{}}
 }
 
 // ---------------------------------------------------------------- property specs
